@@ -3,6 +3,15 @@
 import json, subprocess
 CHECKS = {
  # id: (level category, technique, level text, level note)
+ "C01": ("model_checking", "deviation-bounded exhaustive DFS (E1) over structure generators + complete menu of structure-aware byte operators + exhaustive short-string walk (E3); every execution runs the real parser and serialiser",
+         "All encodings within 2 (thorough 3) deviations of a valid structure, each expanded by every single structure-aware mutation, and all strings over reduced alphabets up to length 6-7 for the small parsers, are parsed by the real code; for every accepted input the serialisation is compared with the consumed bytes. Exhaustive inside the stated bounds.",
+         "Small-scope hypothesis: a defect needing more simultaneous deviations than the bound, or byte values outside the menus, is not seen. Acceptance rule for error-list parsers as stated in DESIGN.md."),
+ "C03": ("model_checking", "same exhaustive input space as C01 with truncation at every offset and appended-byte menus; oracles: suffix remainder, reference-decoder extent, append invariance, no accepted proper prefix",
+         "Every cut point of every base within the deviation bound, every appended byte for small structures, and the mutation menu; consumed length compared against an independent strict decoder (refmodel).",
+         "refmodel strict decoders define the declared extent; known finding: RouterInfo peer_size != 0."),
+ "C04": ("model_checking", "exhaustive feeding of the C01 input space to every parser (own family: all inputs; other families: all bases and all mutants of default bases), all 65,536 type codes for type-parameterised functions, reflective invocation of every exported method with argument menus; recover() + watchdog",
+         "Every execution in the bounded space is run to completion under recover(); a panic anywhere or a call exceeding the watchdog is a violation with a replayable input.",
+         "No-hang is decided by a generous per-call watchdog in this tier (plus the step-count bound of the instrumented build, see C18 notes)."),
  "C10": ("exploration", "exhaustive sweep of all 65,536 type codes through every size lookup and behavioural table, against an independent spec table",
          "Every one of the 65,536 signing and crypto codes is pushed through all lookups and length-dependent parsers; all supported pairs x 3 fills for the block layout. Exhaustive over the stated domain, so agreement is decided, not sampled.",
          "Trusts refmodel/tables.go (spec table) and the Go toolchain."),
